@@ -514,8 +514,130 @@ def unit_safety(which):
                 meta={'function': '%s.ArmV6.translate_address_v' % A.__module__, 'also': ALSO_MEM})
 
 
+def unit_s2_of_s1walk():
+    """second_stage_translate() on its own: the stage 2 translation of a stage 1 descriptor address (s2fs1walk), with the
+    protected-table-walk rule HCR.PTW.  Same safety contract as unit_safety; cheap enough for the quick tier, where the combination
+    "stage 1 on + stage 2" (which reaches this function through the stage 1 walk) is not run."""
+    m = registry.mods()
+    A = m.arm_v6.ArmV6
+    MT = m.memory_attributes.MemType
+    uid = 'C15/fn:%s.ArmV6.second_stage_translate[safety]' % A.__module__
+    FAULT_REGS = ('dfsr', 'dfar', 'hsr', 'hdfar', 'hpfar', 'ifsr', 'ifar')
+    CFG = {'have_virt_ext': True, 'have_security_ext': True, 'have_lpae': True}
+
+    def symbolic(eng):
+        log = eng.register([])
+        hub = c13.AbsHub(eng, log)
+        mach = MC.SymMachine(eng, 'VMSA', 1, mem=hub, cfg_fixed=CFG)
+        cpu = mach.cpu
+        init = dict(mach.init)
+        cfg = mach.configs
+        mode0 = bits(init['cpsr'], 4, 0)
+        eng.assume(lnot(ST.bad_mode(mode0, cfg['have_security_ext'], cfg['have_virt_ext'])))
+        eng.assume(valid(init))
+        ipa = eng.fresh_int('ipa', 40)
+        mva = eng.fresh_int('mva', 32)
+        iswrite = eng.fresh_bool('iswrite')
+        if not eng.prefix:
+            eng.cover('state satisfiable')
+
+        def hook(model):
+            return {'__reads__': [[sym.evaluate(pa, model), sym.evaluate(v, model)] for (k, pa, sz, v) in log if k == 'hubR']}
+        eng.model_hook = hook
+        contracts = {}
+        contracts.update(registry.l1())
+        contracts.update(registry.regview())
+        contracts.update(registry.l2())
+        eng.contracts = contracts
+        ma = eng.new_obj(m.memory_attributes.MemoryAttributes, {
+            'type': MT.NORMAL, 'innerattrs': eng.fresh_int('s1.innerattrs', 2), 'outerattrs': eng.fresh_int('s1.outerattrs', 2),
+            'innerhints': eng.fresh_int('s1.innerhints', 2), 'outerhints': eng.fresh_int('s1.outerhints', 2),
+            'innertransient': False, 'outertransient': False, 'shareable': eng.fresh_bool('s1.shareable'), 'outershareable': eng.fresh_bool('s1.outershareable')})
+        fa = eng.new_obj(m.full_address.FullAddress, {'physicaladdress': ipa, 'ns': 1})
+        s1desc = eng.new_obj(m.address_descriptor.AddressDescriptor, {'memattrs': ma, 'paddress': fa})
+        exc = None
+        r = None
+        try:
+            r = eng.call(A.second_stage_translate, [cpu, s1desc, mva, 8, iswrite])
+        except PyRaise as e:
+            exc = e.exc
+        except sym.OutOfSubset as e:
+            if 'unwinding bound' not in str(e):
+                raise
+            if getattr(e, 'pc', None) is not None:
+                eng.path.pc = list(e.pc)
+            eng.oblige('term', 'the stage 2 walk finishes within three levels', False, detail=str(e))
+            return
+        final = mach.read()
+        own_frame(eng, 'second_stage_translate')
+        if exc is not None and issubclass(exc.cls, NotImplementedError):
+            return
+        if exc is not None and not issubclass(exc.cls, m.arm_exceptions.DataAbortException):
+            eng.oblige('safe.host', 'second_stage_translate raises %s' % exc.cls.__name__, False, detail=str(exc.attrs.get('args')))
+            return
+        mem_same = ('memory', sym.SymBool(hub.term == hub.init))
+        if exc is not None:
+            eng.oblige_all('frame', 'a faulting translation changes only the fault-reporting registers',
+                           [(k, values_eq(v, init[k])) for k, v in final.items() if k not in FAULT_REGS] + [mem_same])
+            return
+        eng.oblige_all('frame', 'a successful translation changes no state', [(k, values_eq(v, init[k])) for k, v in final.items()] + [mem_same])
+        ok_shape = isinstance(r, Obj) and isinstance(r.attrs.get('paddress'), Obj) and isinstance(r.attrs.get('memattrs'), Obj)
+        eng.oblige('frame.own', 'the descriptor returned is the stage 1 descriptor or one built by this translation', ok_shape, detail=type(r).__name__)
+        if not ok_shape:
+            return
+        pa = r.attrs['paddress'].attrs['physicaladdress']
+        eng.oblige('inv.range', 'the physical address is a 40-bit value', land(cmp('>=', pa, 0), cmp('<', pa, 1 << 40)) if sym.is_intlike(pa) else False)
+
+    def replay(inputs, ob):
+        MC.leaves('VMSA', 1)
+        cpu = MC.native_cpu('VMSA', 1, overrides=CFG, fresh=True)
+        ins = dict(inputs)
+        MC.install_native(cpu, ins, 'VMSA', 1)
+        init = MC.read_native(cpu, 'VMSA', 1)
+        table = {pa: v for pa, v in ins.get('__reads__', [])}
+
+        class Mem:
+            def __getitem__(self, key):
+                return table.get(key[0].paddress.physicaladdress, 0)
+
+            def set_bits(self, *a):
+                raise NotImplementedError()
+        cpu.mem = Mem()
+        mm = registry.mods()
+        d = mm.address_descriptor.AddressDescriptor()
+        d.paddress.physicaladdress = ins.get('ipa', 0)
+        d.paddress.ns = 1
+        d.memattrs.type = MT.NORMAL
+        for f in ('innerattrs', 'outerattrs', 'innerhints', 'outerhints'):
+            setattr(d.memattrs, f, ins.get('s1.' + f, 0))
+        d.memattrs.shareable, d.memattrs.outershareable = bool(ins.get('s1.shareable')), bool(ins.get('s1.outershareable'))
+        import io
+        import contextlib
+        exc = r = None
+        try:
+            with contextlib.redirect_stdout(io.StringIO()):
+                r = cpu.second_stage_translate(d, ins.get('mva', 0), 8, bool(ins.get('iswrite')))
+        except Exception as e:      # noqa
+            exc = e
+        final = MC.read_native(cpu, 'VMSA', 1)
+        lines = ['ipa=%s mva=%s write=%s cpsr=%s scr=%s hcr=%s vtcr=%s vttbr=%s descriptors read=%s' % (
+            hex(ins.get('ipa', 0)), hex(ins.get('mva', 0)), bool(ins.get('iswrite')), hex(init['cpsr']), hex(init['scr']), hex(init['hcr']),
+            hex(init['vtcr']), hex(init['vttbr']), {hex(a): hex(v) for a, v in table.items()})]
+        lines.append('real outcome: %s' % ('descriptor' if exc is None else '%s: %s' % (type(exc).__name__, exc)))
+        if isinstance(exc, NotImplementedError):
+            return False, '\n'.join(lines)
+        if exc is not None and not isinstance(exc, mm.arm_exceptions.DataAbortException):
+            return True, '\n'.join(lines)
+        diff = [k for k in final if final[k] != init[k] and (exc is None or k not in FAULT_REGS)]
+        lines.append('state changed: %s' % diff)
+        return bool(diff), '\n'.join(lines)
+
+    return Unit(uid, ['C15'], symbolic, replay, {'contracts': {}, 'max_paths': 200000, 'merge_calls': {A.encode_ldfsr, A.convert_attrs_hints}, 'loop_bound': 8},
+                meta={'function': '%s.ArmV6.second_stage_translate' % A.__module__, 'also': ALSO_MEM})
+
+
 def units(tier):
-    us = [unit(), unit_ld(), unit(True), unit_ld(True, True)] + [unit_safety(w) for w in ('hyp', 'stage2,s1 off')]
+    us = [unit(), unit_ld(), unit(True), unit_ld(True, True), unit_s2_of_s1walk()] + [unit_safety(w) for w in ('hyp', 'stage2,s1 off')]
     if tier == 'thorough':
         # (the Long-descriptor walk with the Virtualization Extensions present and the combination "stage 1 on + stage 2" explore
         # several 10^5 paths: thorough tier only; the quick tier covers stage 2 with the stage 1 MMU off and Hyp mode)
